@@ -97,7 +97,7 @@ pub fn get(prop: &str, tier: &str) -> Option<Check> {
                 "C11" => ("C11", "same lock-step runs as C10; oracle: bytes on the wire equal the model's frames (submission order, one outstanding, MBAP tx id 0,1,2,... per request taken from the queue, persisting across reconnects) and completions after stale/duplicate/future/unsolicited frames equal the model (discarded). One variant runs 66 000 consecutive requests across the 16-bit wrap."),
                 "C12" => ("C12", "same lock-step runs as C10 with per-request timeouts from {1 ms..60 s} and max_response_timeouts in {none,1,2,3,5}; oracle: a timeout completes exactly at transmission instant + its timeout (virtual ns), a reply completing strictly before succeeds (replies split with the last byte 1 ns before / after the deadline), the connection is dropped (WaitAfterDisconnect) after exactly N consecutive timeouts and never otherwise."),
                 "C13" => ("C13", "same lock-step runs as C10; oracle: the listener sequence with virtual instants equals model::client (Disabled first; Connecting only while enabled; Connected directly after Connecting; wait state after every failed connect / lost connection; Disabled after disable; Shutdown once and last), connect attempts seen by the simulated network equal the model's (none while disabled), requests while not connected complete NoConnection at the dequeue instant, the connection is closed on disable/shutdown, task end equals the model, handles report shutdown afterwards."),
-                _ => ("C14", "same lock-step runs as C10 with retry (min,max) from {1,50,1000 ms} x {1,2,8,60}; oracle: the delay carried by WaitAfterFailedConnect/WaitAfterDisconnect equals model::retry (min*2^(k-1) capped, min after disconnect, reset after success) and the next connect attempt seen by the simulated network happens exactly that long after the notification."),
+                _ => ("C14", "same lock-step runs as C10 with retry (min,max) from {1,50,1000 ms} x {1,2,8,60}; oracle: the delay carried by WaitAfterFailedConnect/WaitAfterDisconnect equals model::retry (min*2^(k-1) capped, min after disconnect, reset after success) and the next connect attempt seen by the simulated network happens exactly that long after the notification. TLS batch: a scripted peer refuses TCP, answers the ClientHello with garbage, closes at once, presents a certificate of another CA, or completes the handshake and closes 0 / 1 / 700 ms later, 2-8 outcomes per run; a connection counts as successful only after the handshake, so the announced waits follow the same model over that outcome sequence and each is followed by the next TCP attempt exactly that much later. RTU server batch: port re-open schedule after framing errors and failed opens, with set_decode_level commands arriving during the wait."),
             };
             let mut batches = vec![
                 Batch { name: "client_lockstep", f: scen::client::run_lockstep, cfg: cfg(Mode::LockStep, false, 0), runs: n(150_000, 5_000_000), real: REAL_CLIENT_TCP, stub: STUB_CLIENT_TCP },
@@ -112,6 +112,8 @@ pub fn get(prop: &str, tier: &str) -> Option<Check> {
                 batches.push(Batch { name: "client_racy_faults", f: scen::racy::run_client_racy, cfg: cfg(Mode::Racy, true, 0), runs: n(60_000, 2_000_000), real: REAL_CLIENT_TCP, stub: STUB_CLIENT_TCP });
             }
             if p == "C14" {
+                batches.push(Batch { name: "tls_client_retry", f: scen::tls::run_client_retry, cfg: cfg(Mode::Racy, false, 0), runs: n(1_500, 60_000), real: REAL_TLS, stub: STUB_TLS });
+                batches.push(Batch { name: "rtu_server_model_faults", f: scen::rtu::run_server_model, cfg: cfg(Mode::LockStep, true, 0), runs: n(30_000, 800_000), real: REAL_SERVER_RTU, stub: STUB_SERVER_RTU });
                 batches.push(Batch { name: "retry_strategy_object", f: scen::client::run_retry_object, cfg: cfg(Mode::LockStep, false, 0), runs: n(50_000, 1_000_000), real: "rodbus doubling_retry_strategy (Doubling)", stub: "none (pure state machine, no simulation involved)" });
             }
             if p == "C10" {
